@@ -563,6 +563,32 @@ pub fn gen_c14(g: &mut Gen, tier: &str) {
     }
 }
 
+// ---------------------------------------------------------------- C08: Times obtained from text
+/// Time::parse / Time::from_str on texts whose fields sit at the edges of their ranges (several sub-second fields,
+/// 12/24-hour fields with markers, zones), so that sums and carries in the assembly of the value reach the end of the day.
+pub fn gen_time_text(g: &mut Gen, n: usize) {
+    let now_year = Date::now().year() as i128;
+    let edge: [(&str, &[&str]); 13] = [("HH", &["23", "00", "24"]), ("hh", &["12", "11"]), ("KK", &["11", "00"]), ("kk", &["24", "23"]), ("a", &["PM", "AM"]),
+        ("mm", &["59", "00", "60"]), ("ss", &["59", "00", "60"]),
+        ("n", &["9", "0"]), ("nn", &["99", "00"]), ("nnn", &["999", "000"]), ("nnnn", &["999999", "000000"]), ("nnnnn", &["999999999", "000000000"]), ("nnn", &["500"])];
+    for _ in 0..n {
+        let cnt = 1 + (g.rng.next() % 5) as usize;
+        let mut pat = String::new(); let mut inp = String::new();
+        if g.rng.chance(3, 4) { pat.push_str("HH:mm:ss"); inp.push_str(*g.rng.pick(&["23:59:59", "23:59:59", "23:59:58", "23:59:56", "00:00:00", "12:00:00"])); }
+        for _ in 0..cnt {
+            let (f, vals) = *g.rng.pick(&edge);
+            let v = if g.rng.chance(3, 4) { vals[0] } else { *g.rng.pick(vals) };
+            pat.push(' '); pat.push_str(f); inp.push(' '); inp.push_str(v);
+        }
+        if g.rng.chance(1, 2) { let (f, v) = *g.rng.pick(&[("xxx", "-01:00"), ("xxx", "+01:00"), ("xxxxx", "-23:59:59"), ("xxxxx", "+23:59:59"), ("xx", "-1200"), ("X", "Z"), ("xxx", "+00:00"), ("xxxxx", "+00:00:01"), ("xxxxx", "-00:00:01")]);
+            pat.push(' '); pat.push_str(f); inp.push(' '); inp.push_str(v); }
+        g.push(true, Input::with_strs("parse", vec![1, now_year], vec![inp, pat]));
+    }
+    for s in ["00:00:00", "23:59:59", "24:00:00", "23:59:60", "23:60:00", "12:30:45", "1:2:3", "", "23:59:59.9", " 23:59:59", "99:99:99", "-1:00:00"] {
+        g.push(true, Input::with_strs("fromstr", vec![1], vec![s.to_string()]));
+    }
+}
+
 // ---------------------------------------------------------------- C20
 pub fn gen_c20(g: &mut Gen, tier: &str) {
     let n = if tier == "thorough" { 40_000 } else { 2_500 };
